@@ -780,3 +780,186 @@ Section History.
     splits; try assumption; try lia; apply occ_not_In; lia.
   Qed.
 End History.
+
+(* ------------------------------------------------------------------ map_! on every path *)
+
+(** the values the closure body produced, in order: evaluations continue after a value or
+    a [continue] and stop at the first break / return / panic *)
+Fixpoint produced (clo : nat -> Z -> outcome) (k : nat) (xs : list Z) : list Z :=
+  match xs with
+  | [] => []
+  | x :: r => match clo k x with
+              | OValue y => y :: produced clo (S k) r
+              | OContinue => produced clo (S k) r
+              | _ => []
+              end
+  end.
+
+(** what [mem::forget(consumer)] leaks: the elements after the one on which the body
+    executed [break]; nothing on any other path *)
+Fixpoint leak_of (clo : nat -> Z -> outcome) (k : nat) (xs : list Z) : list Z :=
+  match xs with
+  | [] => []
+  | x :: r => match clo k x with
+              | OValue _ | OContinue => leak_of clo (S k) r
+              | OBreak => r
+              | _ => []
+              end
+  end.
+
+(** every evaluation on [xs] (numbered k, k+1, ..) ended with a value or [continue] *)
+Fixpoint passes (clo : nat -> Z -> outcome) (k : nat) (xs : list Z) : Prop :=
+  match xs with
+  | [] => True
+  | x :: r => ((exists y, clo k x = OValue y) \/ clo k x = OContinue) /\ passes clo (S k) r
+  end.
+
+Lemma leak_of_break : forall xs clo k, leak_of clo k xs <> [] ->
+  exists pre x, xs = pre ++ x :: leak_of clo k xs /\ passes clo k pre /\
+                clo (k + length pre) x = OBreak.
+Proof.
+  induction xs as [|x r IH]; intros clo k H; cbn [leak_of] in *; [congruence|].
+  destruct (clo k x) as [y| | | |] eqn:E; try congruence.
+  - destruct (IH clo (S k) H) as [pre [z [E1 [E2 E3]]]].
+    exists (x :: pre), z. cbn [app length passes]. splits; eauto.
+    + now rewrite <- E1.
+    + now replace (k + S (length pre)) with (S k + length pre) by lia.
+  - exists [], x. cbn [app length passes]. rewrite Nat.add_0_r. auto.
+  - destruct (IH clo (S k) H) as [pre [z [E1 [E2 E3]]]].
+    exists (x :: pre), z. cbn [app length passes]. splits; eauto.
+    + now rewrite <- E1.
+    + now replace (k + S (length pre)) with (S k + length pre) by lia.
+Qed.
+
+Lemma leak_of_suffix : forall xs clo k, is_suffix (leak_of clo k xs) xs.
+Proof.
+  induction xs as [|x r IH]; intros clo k; cbn [leak_of]; [now exists []|].
+  destruct (clo k x); try (now exists (x :: r); rewrite app_nil_r).
+  - destruct (IH clo (S k)) as [t Ht]. exists (x :: t). cbn. now rewrite <- Ht.
+  - now exists [x].
+  - destruct (IH clo (S k)) as [t Ht]. exists (x :: t). cbn. now rewrite <- Ht.
+Qed.
+
+(** the loop of map_! started with [rest] in the consumer and [outs] in the builder, on
+    EVERY path: the events it adds contain no clone; what it leaks is [leak_of]; a
+    non-empty leak comes with the panic of [build]; and every remaining input, every value
+    already in the builder and every value the body produced is handed over or dropped
+    exactly once or is in the leak list (counted with multiplicity) *)
+Lemma map_loop_accounting : forall fuel clo k c b ev rest outs,
+  c_rep c rest -> b_rep b outs -> length outs + length rest <= b_cap b -> length rest < fuel ->
+  match map_loop fuel clo true k c b ev with
+  | (r, ev', leak) =>
+      exists new, ev' = ev ++ new /\ cloned new = [] /\
+        leak = leak_of clo k rest /\ (leak <> [] -> r = MPanicked) /\
+        forall i, occ (accounted new) i + occ leak i
+                  = occ rest i + occ outs i + occ (produced clo k rest) i
+  end.
+Proof.
+  induction fuel as [|fuel IH]; intros clo k c b ev rest outs Hc Hb Hroom Hfuel; [lia|].
+  cbn [map_loop]. destruct rest as [|x r].
+  - rewrite (c_next_rep_nil _ Hc). unfold map_finish.
+    rewrite (c_as_slice_rep _ _ Hc), (b_build_rep _ _ Hb). cbn [leak_of produced].
+    destruct (length outs =? b_cap b).
+    + exists (map Hand outs). splits; auto using cloned_hands; [congruence|].
+      intro i. rewrite accounted_hands, !occ_nil. lia.
+    + rewrite (b_drop_rep _ _ Hb). exists (map Drop outs). splits; auto using cloned_drops.
+      intro i. rewrite accounted_drops, !occ_nil. lia.
+  - destruct (c_next_rep_cons _ _ _ Hc) as [c1 [Hn [Hc1 Hcap1]]]. rewrite Hn.
+    cbn [length] in *. cbn [leak_of produced in_ev].
+    destruct (clo k x) as [y| | | |] eqn:Hclo.
+    + destruct (b_push_rep_room b outs y Hb) as [b1 [Hp [Hb1 Hbc]]]; [lia|]. rewrite Hp.
+      specialize (IH clo (S k) c1 b1 (ev ++ [Hand x]) r (outs ++ [y]) Hc1 Hb1).
+      rewrite app_length, Hbc in IH. cbn [length] in IH.
+      specialize (IH ltac:(lia) ltac:(lia)).
+      destruct (map_loop fuel clo true (S k) c1 b1 (ev ++ [Hand x])) as [[r' ev'] leak].
+      destruct IH as [new [E [Hcl [Hleak [Hp' Heq]]]]].
+      exists (Hand x :: new). splits; auto.
+      * now rewrite E, <- app_assoc.
+      * intro i. specialize (Heq i). cbn [accounted].
+        rewrite occ_app in Heq. rewrite (occ_cons x (accounted new)), (occ_cons x r), (occ_cons y). lia.
+    + unfold map_finish. rewrite (c_as_slice_rep _ _ Hc1), (b_build_rep _ _ Hb).
+      replace (length outs =? b_cap b) with false by (symmetry; apply Nat.eqb_neq; lia).
+      rewrite (b_drop_rep _ _ Hb). exists (Drop x :: map Drop outs). splits; auto.
+      * now rewrite <- app_assoc.
+      * cbn [cloned]. apply cloned_drops.
+      * intro i. cbn [accounted]. rewrite accounted_drops, (occ_cons x outs), (occ_cons x r), occ_nil. lia.
+    + specialize (IH clo (S k) c1 b (ev ++ [Drop x]) r outs Hc1 Hb ltac:(lia) ltac:(lia)).
+      destruct (map_loop fuel clo true (S k) c1 b (ev ++ [Drop x])) as [[r' ev'] leak].
+      destruct IH as [new [E [Hcl [Hleak [Hp' Heq]]]]].
+      exists (Drop x :: new). splits; auto.
+      * now rewrite E, <- app_assoc.
+      * intro i. specialize (Heq i). cbn [accounted].
+        rewrite (occ_cons x (accounted new)), (occ_cons x r). lia.
+    + unfold map_unwind. rewrite (b_drop_rep _ _ Hb), (c_drop_rep _ _ Hc1). cbn [in_ev].
+      exists (Drop x :: map Drop outs ++ map Drop r). splits; auto; try congruence.
+      * cbn [cloned]. now rewrite cloned_app, !cloned_drops.
+      * intro i. cbn [accounted]. rewrite accounted_app, !accounted_drops.
+        rewrite (occ_cons x (outs ++ r)), (occ_cons x r), occ_app, !occ_nil. lia.
+    + unfold map_unwind. rewrite (b_drop_rep _ _ Hb), (c_drop_rep _ _ Hc1). cbn [in_ev].
+      exists (Drop x :: map Drop outs ++ map Drop r). splits; auto; try congruence.
+      * cbn [cloned]. now rewrite cloned_app, !cloned_drops.
+      * intro i. cbn [accounted]. rewrite accounted_app, !accounted_drops.
+        rewrite (occ_cons x (outs ++ r)), (occ_cons x r), occ_app, !occ_nil. lia.
+Qed.
+
+(** array::map_! on every path (completing, break, continue, return, panic): the leak list
+    is exactly [leak_of]; and, counted with multiplicity, every input identity and every
+    value the body produced is handed over or dropped exactly once or is in the leak list *)
+Theorem map_by_val_accounting : forall clo ids,
+  match map_by_val clo ids with
+  | (r, ev, leak) =>
+      cloned ev = [] /\ leak = leak_of clo 0 ids /\ (leak <> [] -> r = MPanicked) /\
+      forall i, occ (accounted ev) i + occ leak i = occ ids i + occ (produced clo 0 ids) i
+  end.
+Proof.
+  intros clo ids. unfold map_by_val.
+  assert (Hcap : b_cap (b_new (length ids)) = length ids)
+    by (unfold b_cap, b_new; cbn; apply repeat_length).
+  pose proof (map_loop_accounting (S (length ids)) clo 0 (c_new ids) (b_new (length ids)) [] ids []
+                (c_new_rep ids) (b_new_rep _)) as H.
+  rewrite Hcap in H. specialize (H ltac:(cbn; lia) ltac:(lia)).
+  destruct (map_loop (S (length ids)) clo true 0 (c_new ids) (b_new (length ids)) []) as [[r ev] leak].
+  destruct H as [new [E [Hcl [Hleak [Hp Heq]]]]]. cbn [app] in E. subst ev.
+  splits; auto. intro i. specialize (Heq i). rewrite occ_nil in Heq. lia.
+Qed.
+
+(** the leak list is non-empty only after [break]: then the body broke out on the element
+    just before the leaked ones, after passing all earlier ones, and the macro panics *)
+Theorem map_by_val_leak_only_after_break : forall clo ids,
+  match map_by_val clo ids with
+  | (r, ev, leak) =>
+      is_suffix leak ids /\
+      (leak <> [] ->
+         r = MPanicked /\
+         exists pre x, ids = pre ++ x :: leak /\ passes clo 0 pre /\ clo (length pre) x = OBreak)
+  end.
+Proof.
+  intros clo ids. pose proof (map_by_val_accounting clo ids) as H.
+  destruct (map_by_val clo ids) as [[r ev] leak]. destruct H as [_ [Hleak [Hp _]]].
+  split; [rewrite Hleak; apply leak_of_suffix|].
+  intro Hne. split; [auto|]. rewrite Hleak in Hne.
+  destruct (leak_of_break ids clo 0 Hne) as [pre [x [E1 [E2 E3]]]].
+  exists pre, x. rewrite Hleak. auto.
+Qed.
+
+(** distinct input identities, none of which the body returns as a value: every input is
+    handed over or dropped exactly once, unless it is in the leak list — then never *)
+Theorem map_by_val_inputs_exactly_once : forall clo ids,
+  NoDup ids -> (forall i, In i (produced clo 0 ids) -> ~ In i ids) ->
+  match map_by_val clo ids with
+  | (r, ev, leak) =>
+      forall i, In i ids ->
+        (~ In i leak /\ occ (accounted ev) i = 1) \/ (In i leak /\ ~ In i (accounted ev))
+  end.
+Proof.
+  intros clo ids Hnd Hdis. pose proof (map_by_val_accounting clo ids) as H.
+  destruct (map_by_val clo ids) as [[r ev] leak]. destruct H as [_ [_ [_ Heq]]].
+  intros i Hin. specialize (Heq i).
+  assert (H1 : occ ids i = 1).
+  { pose proof (proj1 (occ_NoDup _) Hnd i). apply occ_In in Hin. lia. }
+  assert (H2 : occ (produced clo 0 ids) i = 0).
+  { apply occ_not_In. intro Hp. now apply (Hdis i Hp). }
+  destruct (Nat.eq_dec (occ leak i) 0) as [E | E].
+  - left. split; [now apply occ_not_In | lia].
+  - right. split; [apply occ_In; lia | apply occ_not_In; lia].
+Qed.
